@@ -13,7 +13,7 @@ CONSTANTS
   NChecks = 0
   MaxVer = 1
   DistShared = FALSE
-  NEntries = 0
-  NestedRead = FALSE
-  Part = "informer"
-INVARIANTS NoNilUse
+  NEntries = 2
+  NestedRead = TRUE
+  Part = "rwlock"
+INVARIANTS StoreNeverStuck
